@@ -56,9 +56,82 @@ def run_refresh_family(ctx, depth):
     ctx.families["C12/status-refresh"] = {"cases": n, "with_conflict_then_refresh": hit, "tie": "monitor only (cache refresh between retry attempts is not in the model)"}
 
 
+def census_bad(final):
+    """stored counters against the live pods of the final API state"""
+    st = (final.get("set") or {}).get("status")
+    if st is None:
+        return []
+    pods = [p for p in (final.get("pods") or []) if p["owner"] is not None]
+    upd, cur = st["updateRevision"], st["currentRevision"]
+    want = dict(replicas=len(pods), ready=sum(1 for p in pods if p["phase"] == "Running" and p["ready"]),
+                current=sum(1 for p in pods if p["rev"] == cur and not p["term"] and p["phase"] != ""),
+                updated=sum(1 for p in pods if p["rev"] == upd and not p["term"] and p["phase"] != ""))
+    got = {k: st[k] for k in want}
+    return [] if got == want else ["at quiescence the stored status %s is not the census of the live pods %s" % (got, want)]
+
+
+def run_event_family(ctx, depth):
+    """event-driven execution (monitor only): the controller's own informer handlers and work queue decide when a
+    reconcile runs.  A pod flaps while the watch of the StatefulSet lags: the reconcile after the flap sees a stale
+    cached status, writes nothing, and only the (delayed) event of the earlier status write brings the set back.
+    At quiescence (queue empty, caches equal to the API state) the stored counters must be the census."""
+    from props import gen
+    rng = ctx.rng
+    n = 40 if depth == "quick" else 600
+    gen.init_hashes()
+    scs = []
+    for _ in range(n):
+        reps = rng.choice([2, 3, 3, 4])
+        t = rng.choice([1, 2, 3])
+        rev = gen.revname(t)
+        s = rc.mkset(replicas=reps, tmpl=t, policy=rng.choice(["OrderedReady", "Parallel"]),
+                     claims=rng.choice([[], ["data"]]))
+        s["status"].update(replicas=reps, ready=reps, current=reps, updated=reps, currentRevision=rev, updateRevision=rev,
+                           observedGeneration=s["gen"], collisionCount=0)
+        pods = [rc.mkpod(i, rev, claims=s["claims"], tmpl=t) for i in range(reps)]
+        claims = sorted({v["claim"] for p in pods for v in p["vols"] if v["claim"]})
+        api = rc.mkworld(s, pods, [rc.mkrev(rev, 1, t, hashlabel=gen.HASH[(t, 0)])], claims)
+        victim = "web-%d" % rng.randrange(reps)
+        ev_down = rng.choice(["unready", "unready", "fail"]) if s["policy"] == "Parallel" else "unready"
+        ops = [{"op": "kubelet", "pod": victim, "ev": ev_down},
+               {"op": "refresh", "what": "pods", "notify": True}, {"op": "drain"}]
+        if ev_down == "unready":
+            ops += [{"op": "kubelet", "pod": victim, "ev": "ready"}]
+        else:
+            ops += [{"op": "refresh", "what": "pods", "notify": True}, {"op": "drain"},
+                    {"op": "kubelet", "pod": victim, "ev": "ready"}]
+        lag = rng.random() < 0.75
+        if not lag:
+            ops += [{"op": "refresh", "what": "set", "notify": True}, {"op": "drain"}]
+        ops += [{"op": "refresh", "what": "pods", "notify": True}, {"op": "drain"},
+                # the delayed events of the status writes arrive now
+                {"op": "refresh", "what": "set", "notify": True}, {"op": "drain"},
+                {"op": "refresh", "what": "all", "notify": True}, {"op": "drain"},
+                {"op": "refresh", "what": "all", "notify": True}, {"op": "drain"}]
+        scs.append(rc.scenario(api, ops=ops, tmpls=(1, 2, 3)))
+    outs = core.run_harness_parallel("reconcile", scs, shards=16)
+    stale = 0
+    for sc, out in zip(scs, outs):
+        ctx.evaluations += 1
+        ctx.count("family:event-driven")
+        drains = [st for st in out["steps"] if isinstance(st, dict) and "drain" in st]
+        if any(not d["drain"] for d in drains[1:3]):
+            stale += 1                      # a reconcile round in which nothing was queued or nothing needed writing
+        bad = []
+        if drains and drains[-1]["queue_len"] != 0:
+            bad.append("the queue is not empty after the last drain")
+        bad += census_bad(out["final"])
+        if bad:
+            ctx.violations.append({"family": "C12/event-driven", "input": sc, "observed": {"final": out["final"], "drains": drains[-3:]},
+                                   "clauses": bad, "signature": {"kind": "C12", "clause": bad[0][:40]}})
+        ctx.nontriv(["event", sc["api"]["set"]["replicas"], sc["ops"][0]])
+    ctx.families["C12/event-driven"] = {"histories": n, "tie": "monitor only (informer handlers + real work queue; the model covers single reconciles)"}
+
+
 def run(ctx, depth):
     rc.run_reconcile_property(ctx, depth, "C12", PI, monitor, tweak=tweak)
     run_refresh_family(ctx, depth)
+    run_event_family(ctx, depth)
 
 
 def search(ctx):
